@@ -2915,6 +2915,18 @@ int32 parseCertificate(ssl_t *ssl, unsigned char **cp, unsigned char *end)
     certChainLen = *c << 16; c++;
     certChainLen |= *c << 8; c++;
     certChainLen |= *c; c++;
+#  ifdef USE_CERT_CHAIN_PARSING
+    if (!ssl->rec.partial) /* a streamed chain continues in later records */
+#  endif
+    if ((uint32) (end - c) < (uint32) certChainLen)
+    {
+        /* The chain cannot be longer than what is left of the message:
+           the loop below reads the next 3-byte certificate length as long
+           as certChainLen says there is one */
+        ssl->err = SSL_ALERT_DECODE_ERROR;
+        psTraceErrr("Invalid Certificate message\n");
+        return MATRIXSSL_ERROR;
+    }
     if (certChainLen < 3)
     {
 #  ifdef SERVER_WILL_ACCEPT_EMPTY_CLIENT_CERT_MSG
